@@ -99,6 +99,9 @@ pub struct RunOpts {
     /// directory that holds the HOME and TMPDIR of the run (default: the parent of the dump folder, i.e. the scratch
     /// directory of the case); lets runs over different data directories share them
     pub state_dir: Option<PathBuf>,
+    /// TMPDIR of the run lies on another file system than the dump folder (the scratch directories live on /dev/shm,
+    /// this TMPDIR under /var/tmp or /tmp); ignored when no second writable file system is found
+    pub tmp_elsewhere: bool,
 }
 
 /// Some(cpu ticks used so far) if every thread of the process is sleeping (state S or D, i.e. blocked in the kernel -
@@ -127,7 +130,7 @@ pub fn clock_lib() -> Option<PathBuf> {
 
 impl RunOpts {
     pub fn new(coin: Coin, callback: Callback) -> RunOpts {
-        RunOpts { coin, start: None, end: None, verify: false, callback, threads: None, fsize: None, nofile: None, pin: false, inject: None, trace: None, trace_paths: vec![], timeout_s: std::env::var("VP_TIMEOUT").ok().and_then(|v| v.parse().ok()).unwrap_or(90), verbose: 0, path_style: 0, bin: None, pause_on: None, clock_offset: None, tty: false, default_coin: false, state_dir: None }
+        RunOpts { coin, start: None, end: None, verify: false, callback, threads: None, fsize: None, nofile: None, pin: false, inject: None, trace: None, trace_paths: vec![], timeout_s: std::env::var("VP_TIMEOUT").ok().and_then(|v| v.parse().ok()).unwrap_or(90), verbose: 0, path_style: 0, bin: None, pause_on: None, clock_offset: None, tty: false, default_coin: false, state_dir: None, tmp_elsewhere: false }
     }
 }
 
@@ -240,7 +243,24 @@ pub fn cleanup_stale_roots() {
     }
 }
 
+/// removes TMPDIRs on other file systems (see RunOpts::tmp_elsewhere) left behind by dead engine processes
+pub fn cleanup_foreign_tmp() {
+    for base in ["/var/tmp", "/tmp"] {
+        if let Ok(rd) = std::fs::read_dir(base) {
+            for e in rd.flatten() {
+                let name = e.file_name().to_string_lossy().into_owned();
+                if let Some(pid) = name.strip_prefix("vp-xdev-").and_then(|r| r.split('-').next()).and_then(|p| p.parse::<u32>().ok()) {
+                    if pid == std::process::id() || !Path::new(&format!("/proc/{}", pid)).exists() {
+                        let _ = std::fs::remove_dir_all(e.path());
+                    }
+                }
+            }
+        }
+    }
+}
+
 pub fn cleanup_root() {
+    cleanup_foreign_tmp();
     if std::env::var("VP_KEEP").is_ok() || (std::env::var("VP_KEEP_ON_TIMEOUT").is_ok() && TIMED_OUT.load(Ordering::SeqCst) > 0) {
         return;
     }
@@ -382,6 +402,23 @@ fn run_tool_once(datadir: &Path, dump: &Path, o: &RunOpts) -> Result<RunOut, Str
     // history a later run of the same case starts from
     let case_dir = o.state_dir.clone().unwrap_or_else(|| dump.parent().unwrap_or(dump).to_path_buf());
     let (home, tmp) = (case_dir.join("home"), case_dir.join("tmp"));
+    let mut tmp = tmp;
+    let mut foreign_tmp: Option<PathBuf> = None;
+    if o.tmp_elsewhere {
+        use std::os::unix::fs::MetadataExt;
+        let dev = std::fs::metadata(dump).map(|m| m.dev()).ok();
+        for cand in ["/var/tmp", "/tmp"] {
+            let base = PathBuf::from(cand);
+            if base.is_dir() && std::fs::metadata(&base).map(|m| Some(m.dev()) != dev).unwrap_or(false) {
+                let d = base.join(format!("vp-xdev-{}-{}", std::process::id(), COUNTER.fetch_add(1, Ordering::SeqCst)));
+                if std::fs::create_dir_all(&d).is_ok() {
+                    tmp = d.clone();
+                    foreign_tmp = Some(d);
+                    break;
+                }
+            }
+        }
+    }
     let _ = std::fs::create_dir_all(&home);
     let _ = std::fs::create_dir_all(&tmp);
     cmd.env("HOME", home.display().to_string());
@@ -557,6 +594,9 @@ fn run_tool_once(datadir: &Path, dump: &Path, o: &RunOpts) -> Result<RunOut, Str
     let stdout = t_out.join().unwrap_or_default();
     let stderr = t_err.join().unwrap_or_default();
     let files = if o.callback.has_dump() { read_dir_files(dump) } else { BTreeMap::new() };
+    if let Some(d) = &foreign_tmp {
+        let _ = std::fs::remove_dir_all(d);
+    }
     let res = RunOut { code, signal, timed_out, deadlocked, stdout, stderr, files };
     if o.inject.is_some() {
         // keep the strace log next to stderr for diagnosis of the injected run
